@@ -89,7 +89,11 @@ public class JHarness {
           String t = a.get(i);
           if (pt[i] == int.class) args[i] = Integer.parseInt(t);
           else if (pt[i] == double.class) args[i] = Double.parseDouble(t);
-          else if (pt[i] == String.class) { if (t.equals("NULL")) { skip = true; } else args[i] = unhex(t.substring(2)); }
+          else if (pt[i] == String.class) {
+            if (t.equals("NULL")) { skip = true; }
+            else if (t.startsWith("u:")) { String h = t.substring(2); byte[] b = new byte[h.length() / 2]; for (int q = 0; q < b.length; q++) b[q] = (byte) Integer.parseInt(h.substring(2 * q, 2 * q + 2), 16); args[i] = new String(b, StandardCharsets.UTF_8); }
+            else args[i] = unhex(t.substring(2));
+          }
           else if (pt[i] == Crystal_Struct.class) {
             if (t.equals("cNULL")) skip = true;
             else {
